@@ -167,6 +167,17 @@ func renderingsC10(rng *rand.Rand) []rendering {
 			})
 			return h.PtrTo(arr)
 		}},
+		{"unexported-twins", func(d *D) *D {
+			// the object `tw` as a struct that also has UNEXPORTED fields differing from the exported ones
+			// only in letter case (they are not part of the document)
+			return mapD(d, func(x *D) *D {
+				if x.Tag == "m" && len(x.Ks) == 2 && x.Ks[0].S == "Name" && x.Ks[1].S == "ID" {
+					return &D{Tag: "st", Fs: []h.Field{{Name: "name", Exported: false, Iface: true, V: h.Str("hidden")}, {Name: "Name", Exported: true, Iface: true, V: x.Vs[0]},
+						{Name: "ID", Exported: true, Iface: true, V: x.Vs[1]}, {Name: "id", Exported: false, Iface: true, V: h.FloatD(-1)}}}
+				}
+				return x
+			})
+		}},
 		{"typed-slices", func(d *D) *D {
 			return mapD(d, func(x *D) *D {
 				if x.Tag == "sl" {
@@ -364,6 +375,7 @@ func (g *c10gen) doc() *D {
 	}
 	return h.Obj("rows", h.SliceAny(rows...), "nums", h.SliceAny(nums...), "strs", h.SliceAny(strs...),
 		"o", h.Obj("a", g.num(), "b", g.num()), "z", h.Obj("p", h.FloatD(0), "q", h.Str("")), "none", h.SliceAny(), "s", h.Str(c10Strs[r.Intn(len(c10Strs))]), "n", g.num(), "t", h.Bool(true), "limits", h.Obj("lo", h.FloatD(1), "hi", h.FloatD(5)),
+		"tw", h.Obj("Name", h.Str(c10Strs[1+r.Intn(len(c10Strs)-1)]), "ID", g.num()),
 		"ma\u017fs", g.num()) // a key with the long s: MASS, mass and maſs are the same key
 }
 
@@ -381,6 +393,7 @@ func (g *c10gen) query() string {
 		"$.missing?.IsNull()", "$.o.zz?.IsNull()", "$.rows.Index(0).tags.Count()", "$.o.IsNull()", "$.rows.IsEmpty()", "$.nums.IsNotEmpty()", "$.o[@.a.GreaterOrEqual($.o.b)]", "$.o[@.a.Equal($.o.a)].b", "$.o[@.a.Less(0)]",
 		"$.o.Sum()", "$.o.Maximum()", "$.o.Select(\"$\").Count()", "$.o.RemoveKeysByPrefix(\"a\")", "$.z.IsEmpty()", "$.z.Any()", "$.o.IsEmpty()", "$.none.IsNull()", "$.none.Count()", "$.none.zz?.IsNull()", "$.strs.IsNull()",
 		"$.z.p", "$.z.q.IsEmpty()", "$.z.p.Equal(0)", "$.z.P.Add($.z.p)", "$.rows[@.k.Equal(0)].Count()", "$.rows[@.name.IsEmpty()].k", "$.rows.on",
+		"$.tw.name", "$.tw.id.Add(1)", "$.tw.ID", "$.tw.NAME.Contains(\"a\")",
 		"$.MASS", "$.mass.Add(1)", "$.Ma\u017fS.Equal($.MASS)",
 		"$.rows.AsArray().Count()", "$.n.AsArray().First()", "$.limits.hi.Subtract($.limits.lo)", "$.rows[@.tags.Any()].name", "$.rows[@.tags[@.Equal(\"tag\")].Any()].k",
 	}
